@@ -122,3 +122,38 @@ def order_independent(sel, w, c0, c1, c2, c3, c4, c5):
 
 
 WHY = {}
+
+
+GEN_PROG = r"""
+import hdl21 as h, hashlib
+from typing import FrozenSet, Optional
+@h.paramclass
+class P:
+    s = h.Param(dtype=FrozenSet[str], desc="set")
+    t = h.Param(dtype=Optional[str], desc="t", default=None)
+    i = h.Param(dtype=h.Instantiable, desc="unit", default_factory=h.primitives.Mos)
+@h.generator
+def G(p: P) -> h.Module:
+    m = h.Module(); m.x = h.Port(); return m
+@h.module
+class Top:
+    a = h.Port()
+    g0 = G(s=frozenset(["alpha", "beta", "gamma", "delta"]))(x=a)
+    g1 = G(s=frozenset(["one"]), t="tee")(x=a)
+    r = h.generators.Series(unit=h.primitives.R(r=1), nser=3, conns=["p", "n"])(p=a, n=a)
+print(hashlib.sha256(h.to_proto(Top).SerializeToString(deterministic=True)).hexdigest())
+"""
+
+
+@harness("C12", args="nseeds: int", concrete=True, sample=(12,),
+         bounds="concrete seed (no symbolic input): a design with generator-made modules whose parameters include a set, a string and a Module-valued field, exported in 12 real processes with different PYTHONHASHSEED: byte-identical packages (names of generated modules included)")
+def generated_names_across_processes(nseeds):
+    seen = set()
+    R = os.environ.get("VERIF_REPO", "/repo")
+    for seed in range(1, nseeds + 1):
+        e = dict(os.environ, PYTHONHASHSEED=str(seed), PYTHONPATH=f"/verif:{R}")
+        p = subprocess.run([sys.executable, "-c", GEN_PROG], capture_output=True, text=True, env=e)
+        seen.add(p.stdout.strip() or "ERR " + p.stderr[-200:])
+    env.reached()
+    WHY["seen"] = sorted(seen)
+    return len(seen) == 1 and not next(iter(seen)).startswith("ERR")
